@@ -14,6 +14,8 @@ import (
 	"encoding/hex"
 	"encoding/json"
 	"fmt"
+	wasmvmtypes "github.com/CosmWasm/wasmvm/v2/types"
+	"github.com/osmosis-labs/osmosis/v31/wasmbinding"
 	"io"
 	"os"
 	"os/exec"
@@ -284,6 +286,18 @@ func c19FinalState(ch *chain.Chain, path string) {
 	}
 	out["query/supply/uosmo"] = ch.App.BankKeeper.GetSupply(qctx, "uosmo").String()
 	out["query/supply_with_offset/uosmo"] = ch.App.BankKeeper.GetSupplyWithOffset(qctx, "uosmo").String()
+	// what a contract can read: every query on the stargate whitelist, asked the way the wasm query plugin asks it
+	// (empty request; queries that need arguments answer with their deterministic error). These answers enter
+	// transaction execution, so they must be a function of committed state on every node, whatever the process
+	// has in memory.
+	sq := wasmbinding.StargateQuerier(*ch.App.GRPCQueryRouter(), ch.App.AppCodec())
+	for _, pth := range wasmbinding.GetStargateWhitelistedPaths() {
+		cctx, _ := qctx.CacheContext()
+		var bz []byte
+		var err error
+		rec, _ := vk.Guard(func() { bz, err = sq(cctx, &wasmvmtypes.StargateQuery{Path: pth}) })
+		out["stargate"+pth] = fmt.Sprintf("%s|%v|%v", bz, err, rec)
+	}
 	b, _ := json.Marshal(out)
 	os.WriteFile(path, b, 0o644)
 }
